@@ -509,6 +509,25 @@ MUTANTS = [
      "        mu_pos = flat_pos + (step_size / 2) * solve(chol_info_pos, score_pos)\n"),
     ("C06-backward-information-at-current-point", "liesel/goose/iwls.py",
      "        chol_info_prop = self._chol_info(model_state_prop, flat_hessian_fn)\n", "        chol_info_prop = chol_info_pos\n"),
+    # ------------------------------------------------------------------ C04
+    ("C04-mh-step-ignores-correction", "liesel/goose/mh.py",
+     "    log_acc_prob = proposed_log_prob - current_log_prob + log_correction\n", "    log_acc_prob = proposed_log_prob - current_log_prob\n"),
+    ("C04-iwls-correction-sign", "liesel/goose/iwls.py",
+     "        correction = bwd_log_prob - fwd_log_prob\n", "        correction = fwd_log_prob - bwd_log_prob\n"),
+    ("C04-iwls-drift-half-step-not-squared", "liesel/goose/iwls.py",
+     "        mu_pos = flat_pos + ((step_size**2) / 2) * solve(chol_info_pos, score_pos)\n",
+     "        mu_pos = flat_pos + (step_size / 2) * solve(chol_info_pos, score_pos)\n"),
+    ("C04-log-prob-fn-evaluates-old-state", "liesel/goose/kernel.py",
+     "            new_model_state = self.model.update_state(position, model_state)\n            return self.model.log_prob(new_model_state)\n",
+     "            new_model_state = self.model.update_state(position, model_state)\n            return 0.5 * self.model.log_prob(new_model_state)\n"),
+    ("C04-mh-kernel-negates-correction", "liesel/goose/mh_kernel.py",
+     "            proposal.log_correction,\n", "            -proposal.log_correction,\n"),
+    ("C04-mh-step-keeps-old-log-prob-on-accept", "liesel/goose/mh.py",
+     "        lambda: proposed_model_state,\n",
+     "        lambda: (\n            {**proposed_model_state, \"_model_log_prob\": model_state[\"_model_log_prob\"]}\n            if isinstance(model_state, dict) and \"_model_log_prob\" in model_state\n            else proposed_model_state\n        ),\n"),
+    ("C04-hmc-writes-back-position-with-stale-data-dependent-nodes", "liesel/goose/interface.py",
+     "        self._model.update()\n        return self._model.state\n",
+     "        self._model.update(\"_model_log_prior\", *position.keys())\n        out = self._model.state\n        return out | {\"_model_log_prob\": out[\"_model_log_prob\"]._replace(value=out[\"_model_log_prior\"].value + model_state[\"_model_log_lik\"].value)}\n"),
 ]
 
 # Semantics-preserving changes: the property still holds, so the check must NOT raise an alarm.
